@@ -61,6 +61,8 @@ type held struct {
 }
 
 type M struct {
+	// FetchFaults, when set, replaces the fault kinds a failing backend fetch draws from.
+	FetchFaults []string
 	Cfg   Cfg
 	S     *stack.Stack
 	P     *fproxy.Proxy
@@ -569,7 +571,11 @@ func (m *M) FetchKV(t *rapid.T) (string, int64, bool) {
 	m.P.Set(kind, hash, fproxy.Obj{Stored: stored, Logical: int64(len(data))})
 	fault := fproxy.Fault{}
 	if m.Cfg.Failures {
-		fk := rapid.SampledFrom([]string{"", "", "err-before", "notfound", "nil-reader-no-err", "size+1", "size-1", "size-unknown", "stream-err", "clean-eof", "bad-header", "garbage"}).Draw(t, "fault")
+		kinds := []string{"", "", "err-before", "notfound", "nil-reader-no-err", "size+1", "size-1", "size-unknown", "stream-err", "clean-eof", "bad-header", "garbage"}
+		if m.FetchFaults != nil {
+			kinds = m.FetchFaults
+		}
+		fk := rapid.SampledFrom(kinds).Draw(t, "fault")
 		fault.Kind = fk
 		if fk == "stream-err" || fk == "clean-eof" {
 			fault.At = rapid.IntRange(0, len(stored)-1).Draw(t, "faultAt")
